@@ -4,6 +4,7 @@ package c04
 
 import (
 	"bytes"
+	"crypto/sha256"
 	"fmt"
 	"math/big"
 	"testing"
@@ -182,3 +183,58 @@ func TestC04_PowersOfTwo(t *testing.T) {
 		t.Fatalf("enumeration incomplete: %d", cnt)
 	}
 }
+
+// propDifferentialVolume: the volume tier for variable-base multiplication
+// (same idea as C05's).  Each drawn seed is expanded into a batch of scalars
+// and a base point, and four library code paths that share little code are
+// compared per scalar: constant-time GLV (ScalarMult), variable-time GLV
+// (DoubleScalarMultBasepointVartime with u1 = 0), and the two multi-scalar
+// routines with a second, zero term, which do NOT use the GLV split (full
+// 256-bit windowed walk).  The first scalar of every batch is also compared
+// with the reference.
+func propDifferentialVolume(t *rapid.T) {
+	seed := gen.Bytes(t, 32, 32, "seed")
+	const batch = 32
+	hp := sha256.Sum256(append([]byte("verif/c04/volume/point"), seed...))
+	pScalar := ref.Mod(ref.Int(hp[:]), ref.N)
+	if pScalar.Sign() == 0 {
+		pScalar.SetInt64(1)
+	}
+	p := secp256k1.NewIdentityPoint().ScalarBaseMult(lib.Sc(pScalar))
+	if seed[0]&3 == 0 { // a non-affine representative
+		p.Add(p, secp256k1.NewGeneratorPoint())
+		pScalar = ref.Mod(new(big.Int).Add(pScalar, big.NewInt(1)), ref.N)
+	}
+	g := secp256k1.NewGeneratorPoint()
+	zero := secp256k1.NewScalar()
+	for i := 0; i < batch; i++ {
+		h := sha256.Sum256(append(append([]byte("verif/c04/volume"), seed...), byte(i)))
+		if i%8 == 7 {
+			for j := range h {
+				if h[(j+1)%32]&3 != 0 {
+					h[j] = 0
+				}
+			}
+		}
+		s := ref.Mod(ref.Int(h[:]), ref.N)
+		ls := lib.Sc(s)
+		a := secp256k1.NewIdentityPoint().ScalarMult(ls, p).UncompressedBytes()
+		b := secp256k1.NewIdentityPoint().DoubleScalarMultBasepointVartime(zero, ls, p).UncompressedBytes()
+		c := secp256k1.NewIdentityPoint().MultiScalarMult([]*secp256k1.Scalar{ls, zero}, []*secp256k1.Point{p, g}).UncompressedBytes()
+		d := secp256k1.NewIdentityPoint().MultiScalarMultVartime([]*secp256k1.Scalar{zero, ls}, []*secp256k1.Point{g, p}).UncompressedBytes()
+		if !bytes.Equal(a, b) || !bytes.Equal(a, c) || !bytes.Equal(a, d) {
+			t.Fatalf("s=%x P=%x: ScalarMult=%x vartime-GLV=%x MultiScalarMult=%x MultiScalarMultVartime=%x", s, p.UncompressedBytes(), a, b, c, d)
+		}
+		if i == 0 {
+			if want := ref.BaseMul(ref.MulM(s, pScalar, ref.N)).Uncompressed(); !bytes.Equal(a, want) {
+				t.Fatalf("s=%x P=%x: all library paths agree on %x but the reference says %x", s, p.UncompressedBytes(), a, want)
+			}
+		}
+	}
+	stat.Case("differential-volume", []string{fmt.Sprintf("batch:%d", batch)}, true, seed, func() any {
+		return map[string]any{"seed": stat.Hex(seed), "scalars_in_batch": batch}
+	})
+	stat.Note("differential-volume", fmt.Sprintf("each evaluation is a batch of %d scalars and one base point expanded from the drawn seed", batch))
+}
+
+func TestC04_DifferentialVolume(t *testing.T) { rapid.Check(t, propDifferentialVolume) }
